@@ -2,7 +2,7 @@
 
 Every route registered in batch.front_end.front_end.routes (enumerated from the RouteTableDef at run time)
 x callers {anonymous, unknown bearer token, inactive user (member and owner), u1, u2 (bearer and browser-session
-flavour), active user in no project, developer in no project, the `auth` service account}
+flavour), active user in no project, developer in no project, the `auth` service account, another (non-developer) service account}
 x targets (batches: 2 u1's in the shared project bp, 3 u2's in bp2 where u1 is not a member, 4 u1's deleted,
 5 u2's in bp, 6 the inactive user's, 7 u1's with update 1 staged but not committed, 99 nonexistent;
 billing projects: bp, bp2, bpc (closed), nope (nonexistent))
@@ -66,7 +66,8 @@ def _ud(name, i, state='active', dev=0, sa=0):
 
 USERDATA = {
     'u1': _ud('u1', 1), 'u2': _ud('u2', 2), 'u3': _ud('u3', 3), 'ui': _ud('ui', 4, state='inactive'),
-    'dev': _ud('dev', 5, dev=1), 'auth': _ud('auth', 6, sa=1),
+    'dev': _ud('dev', 5, dev=1), 'auth': _ud('auth', 6, sa=1),   # auth: is_developer 0, is_service_account 1 (as bootstrap creates it)
+    'ci': _ud('ci', 7, sa=1),                                    # any other service account: no developer, member of no project
 }
 # caller -> (session id or None, username or None, how the session id travels)
 CALLERS = {
@@ -79,6 +80,7 @@ CALLERS = {
     'nonmember': ('tok-u3', 'u3', 'bearer'),
     'developer': ('tok-dev', 'dev', 'bearer'),
     'auth': ('tok-auth', 'auth', 'bearer'),
+    'sa': ('tok-ci', 'ci', 'bearer'),            # a non-developer service account that is not `auth`
     # thorough tier only
     'anonymous-browser': (None, None, 'cookie'),
     'unknown-session-browser': ('tok-of-nobody', None, 'cookie'),
@@ -91,7 +93,7 @@ TOKENS = {tok: USERDATA[u] for tok, u, _ in CALLERS.values() if u}
 # quick tier: search queries are sent by the two members on three batches each can read and by the non-member on one batch
 # (the thorough tier sends every search query as every caller on every target)
 Q_TARGETS_QUICK = {'u1': (2, 5, 7, None), 'u2': (2, 3, 5, None), 'nonmember': (2, None)}
-QUICK_CALLERS = ['anonymous', 'unknown-token', 'inactive', 'u1', 'u2', 'u2-browser', 'nonmember', 'developer', 'auth']
+QUICK_CALLERS = ['anonymous', 'unknown-token', 'inactive', 'u1', 'u2', 'u2-browser', 'nonmember', 'developer', 'auth', 'sa']
 CALLER_ORDER = list(CALLERS)
 API_TOKEN = '<token shown to this caller by GET /api/v1alpha/batches/{batch_id}>'
 
